@@ -89,11 +89,22 @@ pub fn catalogue(w: &World, tier: &str, seed: u64, reps: usize) -> Vec<FaultCase
                         }
                     }
                     "fashare di_bi" => {
+                        if len >= 2 {
+                            entries.push((What::Tree(tm(vec![], MutOp::SwapElems(0, len - 1))), "opened-di_bi-swapped".into()));
+                            entries.push((What::TreeMulti(vec![tm(vec![0], MutOp::XorU128(0x1234)), tm(vec![len - 1], MutOp::XorU128(0x1234))]), "opened-di_bi-two-same-offset".into()));
+                        }
                         for r in pick(&idx, thorough) {
                             entries.push((What::Tree(tm(vec![r], MutOp::FlipBit)), "opened-di_bi-vs-commitment".into()));
                         }
                     }
                     "fabitn" => {
+                        if len >= 70 {
+                            for (a, b) in [(0usize, 1usize), (0, 64), (3, len - 1)] {
+                                entries.push((What::TreeMulti(vec![tm(vec![a, 0], MutOp::FlipBit), tm(vec![b, 0], MutOp::FlipBit)]), "abit-two-check-bits".into()));
+                                entries.push((What::TreeMulti(vec![tm(vec![a, 1], MutOp::XorU128(0x77)), tm(vec![b, 1], MutOp::XorU128(0x77))]), "abit-two-check-macs-same-offset".into()));
+                                entries.push((What::Tree(tm(vec![], MutOp::SwapElems(a, b))), "abit-swap-two-check-values".into()));
+                            }
+                        }
                         for r in pick(&idx, thorough) {
                             entries.push((What::Tree(tm(vec![r, 0], MutOp::FlipBit)), "abit-check-bit".into()));
                             entries.push((What::Tree(tm(vec![r, 1], MutOp::FlipBit)), "abit-check-mac".into()));
@@ -158,11 +169,21 @@ pub fn catalogue(w: &World, tier: &str, seed: u64, reps: usize) -> Vec<FaultCase
                         }
                     }
                     "flaand hash" => {
+                        if len >= 2 {
+                            entries.push((What::TreeMulti(vec![tm(vec![0], MutOp::XorU128(0xabcd)), tm(vec![len - 1], MutOp::XorU128(0xabcd))]), "laand-two-hashes-same-offset".into()));
+                            entries.push((What::Tree(tm(vec![], MutOp::SwapElems(0, len - 1))), "laand-hashes-swapped".into()));
+                        }
                         for ll in pick(&idx, thorough) {
                             entries.push((What::Tree(tm(vec![ll], MutOp::FlipBit)), "laand-hash-vs-commitment".into()));
                         }
                     }
                     "dvalue" => {
+                        if len >= 2 {
+                            entries.push((What::TreeMulti(vec![tm(vec![0, 0, 0], MutOp::FlipBit), tm(vec![len - 1, 0, 0], MutOp::FlipBit)]), "dvalue-two-bits-two-buckets".into()));
+                            entries.push((What::Tree(tm(vec![], MutOp::SwapElems(0, len - 1))), "dvalue-swap-two-buckets".into()));
+                        }
+                        entries.push((What::TreeMulti(vec![tm(vec![0, 0, 0], MutOp::FlipBit), tm(vec![0, 0, 3], MutOp::FlipBit)]), "dvalue-two-bits-one-bucket".into()));
+                        entries.push((What::TreeMulti(vec![tm(vec![0, 1, 0], MutOp::XorU128(0x99)), tm(vec![0, 1, 3], MutOp::XorU128(0x99))]), "dvalue-two-macs-same-offset".into()));
                         for j in pick(&idx, thorough) {
                             for mm in [0usize, 3] {
                                 entries.push((What::Tree(tm(vec![j, 0, mm], MutOp::FlipBit)), "dvalue-bit-mac-untouched".into()));
@@ -171,6 +192,12 @@ pub fn catalogue(w: &World, tier: &str, seed: u64, reps: usize) -> Vec<FaultCase
                         }
                     }
                     "faand" => {
+                        if len >= 2 {
+                            entries.push((What::TreeMulti(vec![tm(vec![0, 0], MutOp::FlipBit), tm(vec![len - 1, 0], MutOp::FlipBit)]), "beaver-two-d-bits".into()));
+                            entries.push((What::TreeMulti(vec![tm(vec![0, 2], MutOp::XorU128(0x33)), tm(vec![len - 1, 2], MutOp::XorU128(0x33))]), "beaver-two-d-macs-same-offset".into()));
+                            entries.push((What::Tree(tm(vec![], MutOp::SwapElems(0, len - 1))), "beaver-swap-two-openings".into()));
+                        }
+                        entries.push((What::TreeMulti(vec![tm(vec![0, 0], MutOp::FlipBit), tm(vec![0, 1], MutOp::FlipBit)]), "beaver-d-and-e-bit".into()));
                         for j in pick(&idx, thorough) {
                             for f in 0..4usize {
                                 entries.push((What::Tree(tm(vec![j, f], MutOp::FlipBit)), format!("beaver-{}", ["d-bit", "e-bit", "d-mac", "e-mac"][f])));
@@ -281,6 +308,63 @@ pub fn catalogue(w: &World, tier: &str, seed: u64, reps: usize) -> Vec<FaultCase
                 for ix in ixs {
                     let iname = if ix == usize::MAX { "all".to_string() } else { ix.to_string() };
                     add(&format!("tap:{site}"), None, None, What::Drop, format!("tap:{site}:{iname}"), s, Some((site.to_string(), ix)));
+                }
+            }
+            // rushing reflection: the corrupted party waits for the victim's commitment / opening and sends
+            // a copy back (combined with an actual cheat where the check would otherwise be vacuous)
+            for victim in &honest {
+                let occ = |label: &str| -> Vec<usize> {
+                    let mut ks: Vec<usize> = msgs.iter().filter(|m| m.label == label && m.to == *victim).map(|m| m.k).collect();
+                    ks.sort();
+                    ks.dedup();
+                    if ks.len() > 2 && !thorough { vec![ks[0], ks[ks.len() - 1]] } else { ks }
+                };
+                let t = |label: &str, k: usize| Target { from: c, to: Some(*victim), label: label.to_string(), k: Some(k) };
+                let mut combos: Vec<(String, Vec<FaultAction>)> = vec![];
+                for k in occ("flaand comm") {
+                    combos.push((format!("laand-e-bit-cheat-with-reflected-commitment-and-hash:batch{}", k.min(1)), vec![
+                        FaultAction { target: t("flaand", k), what: What::Tree(tm(vec![0, 0], MutOp::FlipBit)) },
+                        FaultAction { target: t("flaand comm", k), what: What::Reflect },
+                        FaultAction { target: t("flaand hash", k), what: What::Reflect },
+                    ]));
+                    if n == 2 {
+                        // the same, and the cheater's own view is patched the same way so that its
+                        // (honest) code does not stop at the check either
+                        let back = |label: &str| Target { from: *victim, to: Some(c), label: label.to_string(), k: Some(k) };
+                        combos.push((format!("laand-e-bit-cheat-with-reflected-commitment-and-hash:cheater-continues:batch{}", k.min(1)), vec![
+                            FaultAction { target: t("flaand", k), what: What::Tree(tm(vec![0, 0], MutOp::FlipBit)) },
+                            FaultAction { target: t("flaand comm", k), what: What::Reflect },
+                            FaultAction { target: t("flaand hash", k), what: What::Reflect },
+                            FaultAction { target: back("flaand comm"), what: What::Reflect },
+                            FaultAction { target: back("flaand hash"), what: What::Reflect },
+                        ]));
+                    }
+                    combos.push((format!("laand-reflected-hash-only:batch{}", k.min(1)), vec![
+                        FaultAction { target: t("flaand", k), what: What::Tree(tm(vec![0, 0], MutOp::FlipBit)) },
+                        FaultAction { target: t("flaand hash", k), what: What::Reflect },
+                    ]));
+                }
+                for k in occ("RNG comm") {
+                    combos.push((format!("coin-toss-reflected-commitment-and-opening:toss{k}"), vec![
+                        FaultAction { target: t("RNG comm", k), what: What::Reflect },
+                        FaultAction { target: t("RNG ver", k), what: What::Reflect },
+                    ]));
+                }
+                for k in occ("fashare comm") {
+                    combos.push((format!("ashare-reflected-commitments-and-openings:batch{}", k.min(1)), vec![
+                        FaultAction { target: t("fashare comm", k), what: What::Reflect },
+                        FaultAction { target: t("fashare ver", k), what: What::Reflect },
+                        FaultAction { target: t("fashare di_bi", k), what: What::Reflect },
+                    ]));
+                }
+                for (class, actions) in combos {
+                    for r in 0..reps {
+                        let plan = FaultPlan { corrupt: c, actions: actions.clone(), crash: None, seed: s ^ ((r as u64) << 56) };
+                        let mut fc = FaultCase::new(ci, plan, format!("rushing:{class}"), actions[0].target.label.clone());
+                        fc.expect_abort = vec![*victim];
+                        fc.rep = r;
+                        extra.push(fc);
+                    }
                 }
             }
             // aBit consistency: the corrupted party uses choice bits towards ONE peer that differ from
